@@ -142,7 +142,8 @@ def real_call(cfg, state, obs_list, user):
         try:
             raw = common.api_call(target.statistics, ["num_samples", "num_chains", "burn_in", "steps", "initial_state", "overwrite"],
                                   dict(num_samples=cfg["S"], num_chains=cfg["C"], burn_in=cfg["burn"], steps=cfg["steps"],
-                                       initial_state=user, overwrite=cfg["ow"]), first=(state,))
+                                       initial_state=user, overwrite=cfg["ow"]), first=(state,),
+                                  defaults=dict(num_chains=0, burn_in=1000, steps=1, initial_state=None, overwrite=False))
             out["raw"] = raw
             if cfg["kind"] == "obs":
                 out["res"] = [raw]
